@@ -25,7 +25,7 @@ import (
 
 func TestMain(m *testing.M) {
 	harness.Property("C15",
-		"families: relay (library dialler <-> byte-level TCP relay <-> library listener on loopback; the relay re-segments both directions by generated chunk schedules with split points inside prompts, replies and payload, and holds back the last 1..n bytes of the password line until the first Hold payload bytes of the dialler have arrived, then forwards them with one Write); eager (library dialler <-> scripted login server that sends the first Eager bytes of its payload with the same Write as 'Password :\\r', optionally with the prompt itself split); adversary (library dialler <-> scripted server that is silent, sends a partial prompt, garbage without CR once or endlessly, endless non-prompt lines, closes or half-closes at once, or stops after the callsign prompt), dialled with a deadline of 50..400 ms through DialContext, DialTimeout, Dialer.Timeout or the dial_timeout= URL parameter. Callsign [!-~]{1,16}; password any bytes without CR (0..24); in 1/6 (password) and 1/12 (callsign) of the cases the credential is repeated to a length from {255..70000} around the usual buffer sizes (4095/4096/4097, 8192, 65536); two adversary servers prompt and then never read while the credential is 12..24 MiB, so that the dialler is blocked in a write when the deadline passes; payloads 0..8 KiB each way (random, text, CR/LF-heavy, prompt look-alikes). Non-trivial: relay cases with Hold > 0, eager cases with Eager > 0, all adversary cases; distinct by hash of the whole case.",
+		"families: relay (library dialler <-> byte-level TCP relay <-> library listener on loopback; the relay re-segments both directions by generated chunk schedules with split points inside prompts, replies and payload, and holds back the last 1..n bytes of the password line until the first Hold payload bytes of the dialler have arrived, then forwards them with one Write); eager (library dialler <-> scripted login server that sends the first Eager bytes of its payload with the same Write as 'Password :\\r', optionally with the prompt itself split); adversary (library dialler <-> scripted server that is silent, sends a partial prompt, garbage without CR once or endlessly, endless non-prompt lines, closes or half-closes at once, or stops after the callsign prompt), dialled with a deadline of 50..400 ms through DialContext, DialTimeout, Dialer.Timeout or the dial_timeout= URL parameter. Callsign [!-~]{1,16}; password any bytes without CR (0..24); in 1/6 (password) and 1/12 (callsign) of the cases the credential is repeated to a length from {255..70000} around the usual buffer sizes (4095/4096/4097, 8192, 65536); two adversary servers prompt and then never read while the credential is 12..24 MiB, so that the dialler is blocked in a write when the deadline passes; payloads 0..8 KiB each way (random, text, CR/LF-heavy, prompt look-alikes). Non-trivial: relay cases with Hold > 0, eager cases with Eager > 0, all adversary cases, overlap cases whose first session has a payload towards the library end point; distinct by hash of the whole case. overlap (two sessions open at the same time in one process: either two raw clients log in to ONE library listener, each sending its payload with the same Write as its password line, or the library dials two scripted eager servers; the first connection is not read until the second login is over, the second password line is mostly longer than the first, then both connections are read to EOF and every payload is compared).",
 		"callsigns contain no white space at all (the login protocol trims the callsign line, and the statement's callsigns are station identifiers); passwords may contain any byte except CR, including LF, NUL and 0x80..0xFF, because the password line is delimited by CR only",
 		"TCP segmentation cannot be forced: bytes meant to travel together are sent with one Write on a TCP_NODELAY socket, bytes meant to be separate are separated by a pause of 0..2 ms. A different segmentation chosen by the kernel weakens that case but cannot cause an alarm, since the property must hold for every segmentation",
 		"end of stream is signalled to the library endpoints by the relay / scripted server shutting down its write side after the last expected byte, so 'complete' is decided by EOF, never by a clock",
@@ -66,6 +66,19 @@ type Case struct {
 	// effective credential is Call / Password repeated cyclically up to that many bytes (see expand).
 	CallLen int `json:"call_len,omitempty"`
 	PwLen   int `json:"pw_len,omitempty"`
+
+	// overlap: a second session in the same process logs in while the first connection is open and its
+	// payload has not been read yet. Side says which library end point serves both (listener | dialler).
+	Side   string  `json:"side,omitempty"`
+	Second *Second `json:"second,omitempty"`
+}
+
+// Second is the later of two overlapping sessions.
+type Second struct {
+	Call     string `json:"call"`
+	Password []byte `json:"password"`
+	C2S      []byte `json:"c2s"`
+	S2C      []byte `json:"s2c"`
 }
 
 func cyc(unit []byte, n int) []byte {
@@ -333,6 +346,181 @@ func runEager(c Case, o *outcome) (sig, msg string) {
 	return comparePayload("the dialler side", "dialler-drops-bytes-buffered-during-login", c.S2C, got)
 }
 
+// ---- overlap family -------------------------------------------------------------------------------
+
+// rawLogin is a client that speaks the login dialogue on a plain TCP connection and sends its payload with the
+// same Write as the password line; it then shuts its write side down and reads to EOF.
+func rawLogin(addr, call string, pw, payload []byte, got *[]byte, errp *error, wg *sync.WaitGroup) {
+	defer wg.Done()
+	cc, err := net.Dial("tcp", addr)
+	if err != nil {
+		*errp = err
+		return
+	}
+	conn := tcp(cc)
+	defer conn.Close()
+	if _, *errp = readLine(conn); *errp != nil {
+		return
+	}
+	if _, *errp = conn.Write([]byte(call + "\r")); *errp != nil {
+		return
+	}
+	if _, *errp = readLine(conn); *errp != nil {
+		return
+	}
+	if _, *errp = conn.Write(append(append(append([]byte{}, pw...), '\r'), payload...)); *errp != nil {
+		return
+	}
+	conn.CloseWrite()
+	*got, *errp = io.ReadAll(conn)
+}
+
+// runOverlapListener: one library listener, two raw clients. The first client's payload arrives with its password
+// line and stays unread while the second client logs in; then both accepted connections are read.
+func runOverlapListener(c Case, o *outcome) (sig, msg string) {
+	ln, err := telnet.Listen("127.0.0.1:0")
+	if err != nil {
+		o.skipped = "listen: " + err.Error()
+		return
+	}
+	defer ln.Close()
+	type side struct {
+		call       string
+		pw, c2s    []byte
+		s2c        []byte
+		clientGot  []byte
+		clientErr  error
+		conn       net.Conn
+		srvGot     []byte
+		rerr, werr error
+	}
+	ss := []*side{{call: c.Call, pw: c.Password, c2s: c.C2S, s2c: c.S2C}, {call: c.Second.Call, pw: c.Second.Password, c2s: c.Second.C2S, s2c: c.Second.S2C}}
+	var wg sync.WaitGroup
+	for i, x := range ss {
+		wg.Add(1)
+		go rawLogin(ln.Addr().String(), x.call, x.pw, x.c2s, &x.clientGot, &x.clientErr, &wg)
+		conn, err := ln.Accept()
+		if err != nil {
+			for _, y := range ss[:i] {
+				y.conn.Close()
+			}
+			if conn != nil {
+				conn.Close()
+			}
+			wg.Wait()
+			return "accept-failed", fmt.Sprintf("session %d: a client logged in as %q but Accept failed: %v", i+1, x.call, err)
+		}
+		x.conn = conn
+		if c.GapUS > 0 {
+			time.Sleep(time.Duration(c.GapUS) * time.Microsecond) // let the coalesced payload settle before the next login
+		}
+	}
+	for _, x := range ss { // only now are the connections read, the earlier one first
+		x.srvGot, x.rerr, x.werr = exchange(x.conn, x.s2c)
+		x.conn.Close()
+	}
+	wg.Wait()
+	for i, x := range ss {
+		who := fmt.Sprintf("the accepted connection of session %d (of two open at the same time)", i+1)
+		tc, ok := x.conn.(*telnet.Conn)
+		switch {
+		case !ok:
+			return "accept-not-a-telnet-conn", "Accept did not return a *telnet.Conn"
+		case tc.RemoteCall() != x.call:
+			return "remote-call", fmt.Sprintf("%s reports RemoteCall() = %q, the client's callsign is %q", who, tc.RemoteCall(), x.call)
+		case x.rerr != nil || x.werr != nil:
+			return "listener-stream-error", fmt.Sprintf("%s failed: read %v, write %v", who, x.rerr, x.werr)
+		case x.clientErr != nil:
+			return "overlap-peer-io-error", fmt.Sprintf("the client of session %d failed: %v", i+1, x.clientErr)
+		}
+		if sig, msg = comparePayload(who, "listener-drops-bytes-buffered-during-login", x.c2s, x.srvGot); sig != "" {
+			return
+		}
+		if sig, msg = comparePayload(fmt.Sprintf("the client of session %d", i+1), "payload-corrupted", x.s2c, x.clientGot); sig != "" {
+			return
+		}
+	}
+	return "", ""
+}
+
+// runOverlapDialler: two eager servers, two dials from this process. The first server's payload arrives with its
+// password prompt and stays unread while the second dial logs in; then both connections are used.
+func runOverlapDialler(c Case, o *outcome) (sig, msg string) {
+	c2 := c
+	c2.Call, c2.Password, c2.C2S, c2.S2C = c.Second.Call, c.Second.Password, c.Second.C2S, c.Second.S2C
+	c2.Eager = min(c.Eager, len(c2.S2C))
+	cs := []Case{c, c2}
+	var lns []net.Listener
+	var res [2]eagerResult
+	var conns [2]net.Conn
+	var wg sync.WaitGroup
+	defer func() {
+		for _, ln := range lns {
+			ln.Close()
+		}
+	}()
+	for i := range cs {
+		ln, err := net.Listen("tcp", "127.0.0.1:0")
+		if err != nil {
+			o.skipped = "listen: " + err.Error()
+			break
+		}
+		lns = append(lns, ln)
+		wg.Add(1)
+		go eagerServer(ln, cs[i], &res[i], &wg)
+		conn, derr := dial(cs[i], ln.Addr().String(), 0)
+		if derr != nil {
+			sig, msg = "login-failed", fmt.Sprintf("session %d: dialling a server that prompts for callsign and password failed: %v", i+1, derr)
+			if isTimeout(derr) {
+				sig, msg, o.skipped = "", "", "login-timeout-under-load"
+			}
+			break
+		}
+		conns[i] = conn
+		if c.GapUS > 0 {
+			time.Sleep(time.Duration(c.GapUS) * time.Microsecond)
+		}
+	}
+	var got [2][]byte
+	var rerr, werr [2]error
+	for i, conn := range conns {
+		if conn == nil {
+			continue
+		}
+		if sig == "" && o.skipped == "" {
+			got[i], rerr[i], werr[i] = exchange(conn, cs[i].C2S)
+		}
+		conn.Close()
+	}
+	for _, ln := range lns {
+		ln.Close()
+	}
+	wg.Wait()
+	if sig != "" || o.skipped != "" {
+		return
+	}
+	for i := range cs {
+		who := fmt.Sprintf("the dialled connection of session %d (of two open at the same time)", i+1)
+		switch {
+		case rerr[i] != nil || werr[i] != nil:
+			return "dialler-stream-error", fmt.Sprintf("%s failed: read %v, write %v", who, rerr[i], werr[i])
+		case res[i].err != nil:
+			return "eager-peer-io-error", fmt.Sprintf("the scripted server of session %d failed: %v", i+1, res[i].err)
+		case string(res[i].callLine) != cs[i].Call+"\r":
+			return "callsign-line", fmt.Sprintf("session %d: the dialler answered the callsign prompt with %q, want %q", i+1, res[i].callLine, cs[i].Call+"\r")
+		case string(res[i].pwLine) != string(cs[i].Password)+"\r":
+			return "password-line", fmt.Sprintf("session %d: the dialler answered the password prompt with %q, want %q", i+1, res[i].pwLine, string(cs[i].Password)+"\r")
+		}
+		if sig, msg = comparePayload(fmt.Sprintf("the server of session %d", i+1), "payload-corrupted", cs[i].C2S, res[i].payload); sig != "" {
+			return
+		}
+		if sig, msg = comparePayload(who, "dialler-drops-bytes-buffered-during-login", cs[i].S2C, got[i]); sig != "" {
+			return
+		}
+	}
+	return "", ""
+}
+
 // ---- adversary family -----------------------------------------------------------------------------
 
 const slack = 10 * time.Second
@@ -400,6 +588,12 @@ func run(c0 Case) (sig, msg string, o outcome) {
 				sig, msg = runEager(c, &o)
 			case "adversary":
 				sig, msg = runAdversary(c, &o)
+			case "overlap":
+				if c.Side == "listener" {
+					sig, msg = runOverlapListener(c, &o)
+				} else {
+					sig, msg = runOverlapDialler(c, &o)
+				}
 			}
 		})
 	})
@@ -509,15 +703,35 @@ var (
 
 func genCase(t *rapid.T) Case {
 	var c Case
-	switch k := rapid.IntRange(0, 9).Draw(t, "family"); {
+	switch k := rapid.IntRange(0, 11).Draw(t, "family"); {
 	case k < 4:
 		c.Family = "relay"
 	case k < 7:
 		c.Family = "eager"
-	default:
+	case k < 10:
 		c.Family = "adversary"
+	default:
+		c.Family = "overlap"
 	}
 	genCredentials(t, &c)
+	if c.Family == "overlap" {
+		// two sessions open at the same time; callsign without white space at the edges is not needed here (the
+		// generator never produces any), credentials of ordinary length, the second password line mostly longer
+		c.CallLen, c.PwLen = 0, 0
+		c.Side = rapid.SampledFrom([]string{"listener", "dialler"}).Draw(t, "side")
+		c.C2S, c.S2C = genPayload(t, "c2s"), genPayload(t, "s2c")
+		var c2 Case
+		genCredentials(t, &c2)
+		if rapid.IntRange(0, 2).Draw(t, "pw2_longer") > 0 {
+			c2.Password = append(append([]byte{}, c.Password...), rapid.SliceOfN(rapid.Byte().Filter(func(b byte) bool { return b != '\r' }), 1, 40).Draw(t, "pw2_more")...)
+		}
+		c.Second = &Second{Call: c2.Call, Password: c2.Password, C2S: genPayload(t, "c2s2"), S2C: genPayload(t, "s2c2")}
+		c.S2CChunks = []int{1 << 20}
+		c.GapUS = rapid.SampledFrom([]int{0, 500, 2000}).Draw(t, "gap_us")
+		c.Method = rapid.SampledFrom([]string{"dial", "timeout", "context", "url", "dialer"}).Draw(t, "method")
+		c.Eager = 1 << 20 // the whole server payload is written with the password prompt
+		return c
+	}
 	if c.Family == "adversary" {
 		c.Method = rapid.SampledFrom([]string{"context", "timeout", "url", "dialer"}).Draw(t, "method")
 		c.TimeoutMs = rapid.IntRange(50, 400).Draw(t, "timeout_ms")
@@ -621,6 +835,12 @@ func account(c Case, o outcome) {
 		}
 		if len(c.C2SChunks) > 0 && c.C2SChunks[0] < len(c.Call)+1 {
 			harness.Label("relay:split-inside-callsign-reply")
+		}
+	case "overlap":
+		nt = (c.Side == "listener" && len(c.C2S) > 0) || (c.Side == "dialler" && len(c.S2C) > 0)
+		harness.Label("overlap:"+c.Side, "method:"+c.Method)
+		if c.Second != nil && len(c.Second.Password) > len(c.Password) {
+			harness.Label("overlap:second-password-line-longer")
 		}
 	case "eager":
 		nt = c.Eager > 0
